@@ -11,6 +11,7 @@
 //   degree_of      the index of the last non-ZERO coefficient, 0 when there is none
 //   fill_power_series   result[i] == start * base^i (left-nested products)
 //   remove_leading_zeros   the coefficients up to and including the last non-ZERO one; empty for the zero polynomial
+//   poly_from_roots / fill_zero_roots   the product of the (x - root) factors, coefficient by coefficient (rp below)
 //   div            see the comment above `div` (uses five algebraic laws as assumptions; all the other functions use none)
 // Not decided here: that E's operations are those of a field (C07 / C08 decide that for the real types); the
 // functions written with iterator adapters (eval, interpolate, syn_div*, batch inversion): bounded stand-in only.
@@ -54,6 +55,7 @@ impl core::ops::AddAssign for E { #[verifier::external_body] fn add_assign(&mut 
 
 impl E {
     pub const ZERO: E = E(0);
+    pub const ONE: E = E(1);
 }
 
 pub fn max_usize(a: usize, b: usize) -> (r: usize)
@@ -179,6 +181,84 @@ pub fn fill_power_series(result: &mut [E], base: E, start: E)
     /*@@body*/
 }
 
+
+// ------------------------------------------------------------------------------------------------------------------
+// polynom::poly_from_roots / fill_zero_roots: the monic polynomial with the given roots, built by multiplying by (x - root) one
+// root at a time. rp(xs, i) is that product for the first i roots, coefficient by coefficient (lowest first), defined by the
+// textbook rule for (x - r) * p:  q[j] = p[j-1] - p[j] * r,  with the two boundary coefficients written as the code computes
+// them (q[0] = ZERO - p[0] * r, q[top] = p[top]); no algebraic law is used. For EVERY list of roots.
+pub open spec fn rp(xs: Seq<E>, i: nat) -> Seq<E>
+    decreases i
+{
+    if i == 0 { seq![E::ONE] } else {
+        let p = rp(xs, (i - 1) as nat);
+        let r = xs[i - 1];
+        Seq::new(i + 1, |j: int|
+            if j == 0 { sub_of(E::ZERO, mul_of(p[0], r)) }
+            else if j < i { sub_of(p[j - 1], mul_of(p[j], r)) }
+            else { p[i - 1] })
+    }
+}
+proof fn lemma_rp_len(xs: Seq<E>, i: nat)
+    ensures rp(xs, i).len() == i + 1
+    decreases i
+{
+    if i > 0 { lemma_rp_len(xs, (i - 1) as nat); }
+}
+
+//@@ source math/src/polynom/mod.rs
+//@@ extract anchor="fn fill_zero_roots<E: FieldElement>(xs: &[E], result: &mut [E])"
+//@@ rewrite "#[allow(clippy::assign_op_pattern)]" => ""
+//@@ itername 1 it
+//@@ itername 2 jt
+//@@ loop 1
+//@@|        invariant
+//@@|            result.len() == xs.len() + 1, it.iter.end == xs.len(), n == xs.len() - i,
+//@@|            forall|t: int| n <= t <= n + i ==> #[trigger] result@[t] == rp(xs@, i as nat)[t - n],
+//@@ loopstart 1
+//@@|        proof { lemma_rp_len(xs@, i as nat); lemma_rp_len(xs@, (i + 1) as nat); }
+//@@|        let ghost n0 = n as int;
+//@@ loop 2
+//@@|            invariant
+//@@|                result.len() == xs.len() + 1, n0 == xs.len() - i, n == n0 - 1, 0 <= i < xs.len(), n <= j, jt.iter.end == xs.len(),
+//@@|                rp(xs@, i as nat).len() == i + 1, rp(xs@, (i + 1) as nat).len() == i + 2,
+//@@|                forall|t: int| n <= t < j ==> #[trigger] result@[t] == rp(xs@, (i + 1) as nat)[t - n],
+//@@|                j == n ==> result@[n as int] == E::ZERO,
+//@@|                forall|t: int| n0 <= t <= n0 + i && t >= j ==> #[trigger] result@[t] == rp(xs@, i as nat)[t - n0],
+//@@ loopend 2
+//@@|            proof {
+//@@|                let p = rp(xs@, i as nat);
+//@@|                let k = j as int - n as int;
+//@@|                assert(rp(xs@, (i + 1) as nat)[k] == (if k == 0 { sub_of(E::ZERO, mul_of(p[0], xs@[i as int])) } else { sub_of(p[k - 1], mul_of(p[k], xs@[i as int])) }));
+//@@|            }
+//@@ loopend 1
+//@@|        proof {
+//@@|            // the top coefficient was not touched
+//@@|            assert(result@[n0 + i] == rp(xs@, i as nat)[i as int]);
+//@@|            assert(rp(xs@, (i + 1) as nat)[i + 1] == rp(xs@, i as nat)[i as int]);
+//@@|        }
+pub fn fill_zero_roots(xs: &[E], result: &mut [E])
+    requires old(result).len() == xs.len() + 1
+    ensures
+        final(result).len() == xs.len() + 1,
+        forall|t: int| 0 <= t <= xs.len() ==> #[trigger] final(result)@[t] == rp(xs@, xs.len() as nat)[t],
+{
+    proof { lemma_rp_len(xs@, 0); }
+    /*@@body*/
+}
+
+#[verifier::external_body]
+pub fn uninit_vector(n: usize) -> (r: Vec<E>) ensures r.len() == n { unimplemented!() }
+
+//@@ extract anchor="pub fn poly_from_roots<E: FieldElement>(xs: &[E]) -> Vec<E>"
+//@@ rewrite "unsafe { utils::uninit_vector(xs.len() + 1) }" => "uninit_vector(xs.len() + 1)"
+pub fn poly_from_roots(xs: &[E]) -> (r: Vec<E>)
+    requires xs.len() < usize::MAX
+    ensures r@ =~= rp(xs@, xs.len() as nat)
+{
+    proof { lemma_rp_len(xs@, xs.len() as nat); }
+    /*@@body*/
+}
 
 // ------------------------------------------------------------------------------------------------------------------
 // polynom::div - the ONLY function of this unit that uses algebraic laws of E. The laws are the five axioms below
